@@ -67,6 +67,21 @@ class Forests:
         self.opts = opts or {}
         self.n = 0
 
+    def corpus(self, prop):
+        """past failures kept as a corpus (replay files under /verif/corpus/<ID>/): yields (description, path of the object written out)"""
+        import base64
+        import glob
+        import json
+        for f in sorted(glob.glob(os.path.join(common.VERIF, "corpus", prop, "*.json"))):
+            rp = json.load(open(f))
+            inp = rp.get("input", {})
+            if not inp.get("object_b64") or not inp.get("forest"):
+                continue
+            path = os.path.join(self.dir, "corpus-%d.o" % self.n)
+            self.n += 1
+            open(path, "wb").write(base64.b64decode(inp["object_b64"]))
+            yield inp["forest"], path
+
     def make(self, rng, **opts):
         o = dict(self.opts)
         o.update(opts)
